@@ -116,12 +116,15 @@ class EthAddr (_AddrBase):
           # Address of form xx:xx:xx:xx:xx:xx
           # Pick out the hex digits only
           addr = b''.join((addr[x*3:x*3+2] for x in range(0,6)))
-        elif len(addr) == 12:
+        elif len(addr) == 12 and b':' not in addr:
           pass
         else:
           # Assume it's hex digits but they may not all be in two-digit
           # groupings (e.g., xx:x:x:xx:x:x). This actually comes up.
-          addr = b''.join([b"%02x" % (int(x,16),) for x in addr.split(b":")])
+          addr = [int(x,16) for x in addr.split(b":")]
+          if len(addr) != 6 or min(addr) < 0 or max(addr) > 0xff:
+            raise RuntimeError("Bad format for ethernet address")
+          addr = b''.join([b"%02x" % (x,) for x in addr])
         # We should now have 12 hex digits (xxxxxxxxxxxx).
         # Convert to 6 raw bytes.
         addr = bytes(int(addr[x*2:x*2+2], 16) for x in range(0,6))
@@ -132,6 +135,8 @@ class EthAddr (_AddrBase):
     elif isinstance(addr, EthAddr):
       self._value = addr.toRaw()
     elif isinstance(addr, (list,tuple,bytearray)):
+      if len(addr) != 6:
+        raise RuntimeError("Expected ethernet address to be 6 bytes")
       self._value = bytes(addr)
     elif (hasattr(addr, '__len__') and len(addr) == 6
           and hasattr(addr, '__iter__')):
